@@ -12,6 +12,15 @@ pub struct Tracking;
 
 pub const CAP: usize = 1 << 30;
 static LIVE: AtomicUsize = AtomicUsize::new(0);
+/// The cap limits what the code under test may add on top of the harness's own data (the case space of the thorough
+/// tier alone is several hundred MiB): it is armed by the worker once that data is built, relative to the level then.
+static ARMED: std::sync::atomic::AtomicBool = std::sync::atomic::AtomicBool::new(false);
+static BASE: AtomicUsize = AtomicUsize::new(0);
+
+pub fn arm() {
+	BASE.store(LIVE.load(Ordering::Relaxed), Ordering::Relaxed);
+	ARMED.store(true, Ordering::Relaxed);
+}
 
 thread_local! {
 	static CUR: Cell<isize> = const { Cell::new(0) };
@@ -111,7 +120,11 @@ fn refuse(sz: usize) {
 
 #[inline]
 fn admit(sz: usize) -> bool {
-	if sz > CAP || LIVE.load(Ordering::Relaxed).saturating_add(sz) > CAP {
+	if !ARMED.load(Ordering::Relaxed) {
+		return true;
+	}
+	let above = LIVE.load(Ordering::Relaxed).saturating_sub(BASE.load(Ordering::Relaxed));
+	if sz > CAP || above.saturating_add(sz) > CAP {
 		refuse(sz);
 		return false;
 	}
